@@ -265,7 +265,8 @@ fn multisig_shape(s: &[u8]) -> MsShape {
     }
     let (m, nn) = match (m, nn) {
         (Some(m), Some(n)) => (m, n),
-        (Some(_), None) => return MsShape::Lookalike,
+        // the token in front of OP_CHECKMULTISIG is not a number: no m-of-n multisig
+        (Some(_), None) => return MsShape::No,
         _ => return MsShape::No,
     };
     let std_keys = keys.iter().all(|k| matches!(k, Tok::Push(d) if d.len() == 33 || d.len() == 65));
